@@ -809,7 +809,13 @@ def gen_case(rnd, factory_rate=0.04):
             for stype in rnd.sample(TYPES, rnd.randint(1, 3)):
                 ops.append(["lookup", stype, rnd.choice(texts)])
             continue
-        if r < 0.22:
+        if r < 0.07:
+            # the run's default matcher chosen like environment.py does (use_step_matcher + "make the current one the default"),
+            # another matcher used for a while, then back to the default without naming it
+            x, y = rnd.choice(KINDS), rnd.choice(KINDS)
+            ops += [["use", x], ["current_as_default"], ["use", y], ["use_default", None]]
+            current = default = x
+        elif r < 0.22:
             kname = rnd.choice(KINDS)
             ops.append(["use", kname])
             current = kname
